@@ -229,7 +229,8 @@ def build_schema(m, c_c):
         if datatype is not None:
             schema.append(datatype)
     
-    scope_filter = lambda selected: ooaofooa.is_contained_in(selected, c_c)
+    scope_filter = lambda selected: (not ooaofooa.is_global(selected) and
+                                     ooaofooa.is_contained_in(selected, c_c))
     for s_dt in m.select_many('S_DT', scope_filter):
         datatype = build_type(s_dt)
         if datatype is not None:
